@@ -11,6 +11,7 @@ import (
 	"go.minekube.com/gate/pkg/edition/java/netmc"
 	"go.minekube.com/gate/pkg/edition/java/proto/packet/plugin"
 	"go.minekube.com/gate/pkg/edition/java/proto/state"
+	"go.minekube.com/gate/pkg/edition/java/proto/version"
 	"go.minekube.com/gate/pkg/edition/java/proxy/bungeecord"
 	"go.minekube.com/gate/pkg/edition/java/proxy/message"
 	"go.minekube.com/gate/pkg/edition/java/proxy/phase"
@@ -91,6 +92,9 @@ type c25Case struct {
 	// | "forge-complete" (handshake complete on both sides) | "forge-transition" (current server in the
 	// IN_TRANSITION phase, a second connection in flight)
 	ConnType string `json:"conn_type,omitempty"`
+	// Proto: "" = by Modern (1.20.2 / 1.12.2); "1.13" = exactly the version at which channel names become
+	// namespaced identifiers (getChannels, brand/channel rewriting are gated on >= 1.13); Modern must be true
+	Proto string `json:"proto,omitempty"`
 }
 
 func (c c25Case) String() string {
@@ -147,6 +151,9 @@ func c25NewRigFor(c c25Case) *c25Rig {
 	r.protocol = g7Legacy
 	if modern {
 		r.protocol = g7Modern
+	}
+	if c.Proto == "1.13" {
+		r.protocol = version.Minecraft_1_13.Protocol
 	}
 	for _, id := range registrar {
 		if strings.Contains(id, ":") {
@@ -452,7 +459,8 @@ func c25Check(c c25Case) (fails []c25Fail, class string, o *c25Obs) {
 // ---- enumeration ----
 
 func c25Bodies(thorough bool) [][]byte {
-	out := [][]byte{{}, {0x00}, []byte("hello"), bytes.Repeat([]byte{0xAB, 0x00, 0x7F}, 100)}
+	// 32768 bytes: one more than the largest body a client may send (and than getChannels parses)
+	out := [][]byte{{}, {0x00}, []byte("hello"), bytes.Repeat([]byte{0xAB, 0x00, 0x7F}, 100), bytes.Repeat([]byte{0x5A, 0x00}, 16384)}
 	if thorough {
 		out = append(out, []byte{0xFF}, bytes.Repeat([]byte("x"), 32767), []byte("a:b\x00c:d"))
 	}
@@ -601,6 +609,23 @@ func c25Cases(thorough bool) []c25Case {
 	}
 	out = append(out, c25PeerCases()...)
 	out = append(out, c25ForgeCases()...)
+	// exactly AT the 1.13 gate (the base cases sit on both sides of it, at 1.12.2 and 1.20.2)
+	for _, h := range []string{"client-play", "client-initial", "backend-play"} {
+		for _, reg := range registrars {
+			for _, sub := range []string{"none", "allow"} {
+				for _, ch := range []string{"my:chan", "MyChan", "unreg:chan"} {
+					out = append(out, c25Case{Handler: h, Modern: true, Proto: "1.13", Channel: ch, Body: hex.EncodeToString([]byte("hello")), Registrar: reg, Sub: sub})
+				}
+				for _, ch := range []string{plugin.RegisterChannel, plugin.UnregisterChannel, plugin.RegisterChannelLegacy} {
+					for _, body := range append(c25RegisterPayloads(true, false), []byte("FML|HS\x00FML"), []byte("MyChan")) {
+						for _, ex := range []int{0, maxClientsidePluginChannels - 1} {
+							out = append(out, c25Case{Handler: h, Modern: true, Proto: "1.13", Channel: ch, Body: hex.EncodeToString(body), Registrar: reg, Sub: sub, Existing: ex})
+						}
+					}
+				}
+			}
+		}
+	}
 	return out
 }
 
@@ -677,17 +702,24 @@ func c25RunHistory(handler string, h []int) bfs.Outcome {
 }
 
 type c25Replay struct {
-	Mode    string   `json:"mode"`
-	Pair    *c25Pair `json:"pair,omitempty"`
-	Case    c25Case  `json:"case"`
-	Handler string   `json:"handler,omitempty"`
-	History []int    `json:"history,omitempty"`
+	Mode    string    `json:"mode"`
+	Pair    *c25Pair  `json:"pair,omitempty"`
+	Login   *c25Login `json:"login,omitempty"`
+	Case    c25Case   `json:"case"`
+	Handler string    `json:"handler,omitempty"`
+	History []int     `json:"history,omitempty"`
 }
 
 func TestVerif(t *testing.T) {
 	vrt.Run(t, "C25", func(r *vrt.R) {
 		var rp c25Replay
 		if r.ReplayInto(&rp) {
+			if rp.Mode == "login" && rp.Login != nil {
+				for _, f := range c25CheckLogin(*rp.Login) {
+					r.Violation(f.key, f.desc, rp)
+				}
+				return
+			}
 			if rp.Mode == "pair" && rp.Pair != nil {
 				fails, _ := c25CheckPair(*rp.Pair)
 				for _, f := range fails {
@@ -725,6 +757,9 @@ func TestVerif(t *testing.T) {
 			if c.ConnType != "" {
 				r.Class("conn=" + c.ConnType + ":" + c.Handler + ":" + class)
 			}
+			if c.Proto != "" {
+				r.Class("proto=" + c.Proto + ":" + c.Handler + ":" + class)
+			}
 			if len(o.pluginEvents)+len(o.regEvents) > 0 {
 				r.Nontrivial(1)
 			}
@@ -761,6 +796,23 @@ func TestVerif(t *testing.T) {
 			}
 		}
 		r.Extra("pairs", len(pairs))
+		logins := c25LoginCases()
+		for i, c := range logins {
+			if !r.Mine(i) {
+				continue
+			}
+			c := c
+			fails := c25CheckLogin(c)
+			r.Eval(1)
+			r.Class("backend-login:sub=" + c.Sub)
+			if c.Sub != "none" {
+				r.Nontrivial(1)
+			}
+			for _, f := range fails {
+				r.Violation(f.key, f.desc, c25Replay{Mode: "login", Login: &c})
+			}
+		}
+		r.Extra("login_cases", len(logins))
 		depth := 3
 		if r.Thorough() {
 			depth = 5
